@@ -19,6 +19,8 @@ pub mod slice_ops;
 #[cfg(kani)]
 pub mod graph_ops;
 #[cfg(kani)]
+pub mod ascii_ops;
+#[cfg(kani)]
 pub mod stubs;
 #[cfg(kani)]
 pub mod gen;
